@@ -159,6 +159,9 @@ func (g *Gen) keys(max int) []string {
 func (g *Gen) future() int64 { return g.Base + hour*int64(1+g.pick(3)) }
 func (g *Gen) past() int64   { return g.Base - hour*int64(1+g.pick(3)) }
 func (g *Gen) at() int64 {
+	if g.chance(0.06) {
+		return []int64{0, -100, 1, -3600000}[g.pick(4)] // at or before the epoch
+	}
 	if g.chance(0.7) {
 		return g.future()
 	}
@@ -428,13 +431,13 @@ func (g *Gen) index() int {
 
 func (g *Gen) listOp() *Op {
 	k := g.key()
-	switch g.pick(24) {
+	switch g.pick(27) {
 	case 0:
 		return LDelete(k, g.elem())
-	case 1:
-		return LDeleteBack(k, g.elem(), g.pick(5)-1)
-	case 2:
-		return LDeleteFront(k, g.elem(), g.pick(5)-1)
+	case 1, 24, 25:
+		return LDeleteBack(k, g.elem(), g.pick(4))
+	case 2, 26:
+		return LDeleteFront(k, g.elem(), g.pick(4))
 	case 3, 4:
 		return LGet(k, g.index())
 	case 5, 6:
@@ -658,8 +661,12 @@ func (g *Gen) zsetOp() *Op {
 }
 
 func (g *Gen) scanPat() string {
-	if g.chance(0.6) {
+	if g.chance(0.5) {
 		return "*"
+	}
+	if !g.Prof.Glob && !g.Prof.Binary && g.chance(0.5) {
+		// patterns that hit the default field / member names
+		return []string{"f[12]", "f?", "f*", "[fg]1", "a", "[a-c]", "?", "f1"}[g.pick(8)]
 	}
 	return g.pattern2()
 }
@@ -753,16 +760,17 @@ func (h *History) Select(keep [][]int) *History {
 var Profiles = map[string]Profile{
 	"str":    {Name: "str", Families: map[string]int{"str": 8, "key": 2}, MinSteps: 5, MaxSteps: 60, Blocks: true, Expiry: true},
 	"key":    {Name: "key", Families: map[string]int{"str": 3, "key": 7}, MinSteps: 5, MaxSteps: 60, Blocks: true, Expiry: true},
-	"list":   {Name: "list", Families: map[string]int{"list": 10, "key": 1}, MinSteps: 5, MaxSteps: 60, Blocks: true},
-	"set":    {Name: "set", Families: map[string]int{"set": 10, "key": 1}, MinSteps: 5, MaxSteps: 60, Blocks: true},
-	"hash":   {Name: "hash", Families: map[string]int{"hash": 10, "key": 1}, MinSteps: 5, MaxSteps: 60, Blocks: true},
-	"zset":   {Name: "zset", Families: map[string]int{"zset": 10, "key": 1}, MinSteps: 5, MaxSteps: 60, Blocks: true},
+	"list":   {Name: "list", Families: map[string]int{"list": 10, "key": 1}, MinSteps: 5, MaxSteps: 60, Blocks: true, Expiry: true, ExpireProb: 0.06},
+	"set":    {Name: "set", Families: map[string]int{"set": 10, "key": 1}, MinSteps: 5, MaxSteps: 60, Blocks: true, Expiry: true, ExpireProb: 0.06},
+	"hash":   {Name: "hash", Families: map[string]int{"hash": 10, "key": 1}, MinSteps: 5, MaxSteps: 60, Blocks: true, Expiry: true, ExpireProb: 0.06},
+	"zset":   {Name: "zset", Families: map[string]int{"zset": 10, "key": 1}, MinSteps: 5, MaxSteps: 60, Blocks: true, Expiry: true, ExpireProb: 0.06},
 	"expiry": {Name: "expiry", Families: map[string]int{"str": 2, "list": 2, "set": 2, "hash": 2, "zset": 2, "key": 4}, MinSteps: 5, MaxSteps: 80, Blocks: true, Expiry: true, ExpireProb: 0.25},
 	"txmix":  {Name: "txmix", Families: map[string]int{"str": 2, "list": 3, "set": 2, "hash": 2, "zset": 2, "key": 2}, MinSteps: 3, MaxSteps: 40, Blocks: true, Expiry: true, BlockProb: 0.6},
 	"refuse": {Name: "refuse", Families: map[string]int{"str": 2, "list": 2, "set": 2, "hash": 2, "zset": 2, "key": 1}, MinSteps: 5, MaxSteps: 60, Blocks: true, Expiry: false, BlockProb: 0.3},
 	"scan":   {Name: "scan", Families: map[string]int{"str": 1, "list": 1, "set": 4, "hash": 4, "zset": 4, "key": 3}, MinSteps: 10, MaxSteps: 70, Blocks: true, Expiry: true, Scan: true},
 	"binary": {Name: "binary", Families: map[string]int{"str": 3, "list": 2, "set": 2, "hash": 3, "zset": 2, "key": 3}, MinSteps: 5, MaxSteps: 50, Blocks: true, Expiry: false, Binary: true, Scan: true},
 	"glob":   {Name: "glob", Families: map[string]int{"str": 3, "set": 2, "hash": 2, "zset": 2, "key": 6}, MinSteps: 10, MaxSteps: 60, Blocks: false, Expiry: false, Glob: true, Scan: true},
+	"expcoll": {Name: "expcoll", Families: map[string]int{"set": 5, "zset": 5, "list": 2, "hash": 2, "key": 3}, MinSteps: 8, MaxSteps: 60, Blocks: true, Expiry: true, ExpireProb: 0.3},
 	"mixed":  {Name: "mixed", Families: map[string]int{"str": 2, "list": 2, "set": 2, "hash": 2, "zset": 2, "key": 3}, MinSteps: 5, MaxSteps: 80, Blocks: true, Expiry: true},
 }
 
